@@ -107,7 +107,7 @@ def run_seed(patch, props):
             p = subprocess.run(["patch", "-p1", "-s", "-i", os.path.abspath(patch)], cwd=d, stdout=subprocess.PIPE, stderr=subprocess.STDOUT, text=True)
             if p.returncode != 0:
                 print("patch does not apply:", p.stdout[-300:])
-                return {}
+                return {q: ["PATCH-DOES-NOT-APPLY"] for q in props}
         out = {}
         for q in props:
             c = subprocess.run([sys.executable, os.path.join(VERIF, "check.py"), q, "--src", d, "--json", "--no-evidence"],
